@@ -1,11 +1,94 @@
-(* C45 — Linear stream pipelines compute exactly their list semantics. Statements only. *)
+(* C45 — Linear stream pipelines compute exactly their list semantics.
+   Statements only; the model is C45/Model.v, the proofs are in C45/*.v.
+
+   [reach c input ks s]: s is reachable from the wired pipeline (source Of(input), the stage actors [ks],
+   a collecting sink with demand window c) by ANY number of actor steps in ANY interleaving; links are
+   FIFO, a stopped actor never handles a message again. [plan fuse p] is the materializer's stage list
+   for the operator description p (stage fusion on/off). [kok] names the covered stage kinds:
+   flowActor (Map, TryMap incl. Resume, Filter, FlatMap, Flatten, Scan, Deduplicate, Buffer, Map-on-batches),
+   fusedFlowActor without Resume, and the repaired batchFlowActor with size >= 1. *)
 From Coq Require Import ZArith List Bool.
-From GV Require Import C45.Model C45.Proofs.
+From GV Require Import C45.Model C45.Trace C45.Sem C45.Chain C45.StageBatch C45.Main C45.Spec C45.Proofs.
 Import ListNotations.
 Open Scope Z_scope.
 
-Theorem C45_sem_map : forall a b (zs : list Z),
-  sem_op (OMap a b) (map VZ zs) = (map (fun z => VZ (a * z + b)) zs, None).
-Proof. exact sem_map. Qed.
+(* For every pipeline depth, every input, every interleaving: what the sink has collected is a prefix of
+   the list semantics; the live sink handles at most one terminal signal; once it has stopped it has
+   handled exactly one, onComplete ran once, and
+     - a normal completion means the sink holds EXACTLY the list semantics and no stage failed,
+     - an error termination carries the error of a stage that fails under the list semantics. *)
+Theorem C45_sink_receives_list_semantics :
+  forall (c : cfg) (input : list val) (p : list op) (fuse : bool) (s : system),
+  Forall kok (plan fuse p) -> reach c input (plan fuse p) s ->
+  let S := sem p input in
+  let k := y_sink s in
+  prefix (k_items (n_st k)) (fst S) /\
+  (terminals (n_cin k) <= 1)%nat /\
+  (n_alive k = true -> terminals (n_cin k) = O /\ k_completions (n_st k) = O) /\
+  (n_alive k = false ->
+     terminals (n_cin k) = 1%nat /\ k_completions (n_st k) = 1%nat /\
+     (k_err (n_st k) = None -> k_items (n_st k) = fst S /\ snd S = []) /\
+     (forall e, k_err (n_st k) = Some e -> In e (snd S))).
+Proof. exact pipeline_sound. Qed.
 
+(* When exactly one stage fails under the list semantics, the stream ends with exactly that error. *)
+Theorem C45_first_stage_error_ends_the_stream :
+  forall (c : cfg) (input : list val) (p : list op) (fuse : bool) (s : system) (e0 : errc),
+  Forall kok (plan fuse p) -> reach c input (plan fuse p) s ->
+  snd (sem p input) = [e0] -> n_alive (y_sink s) = false ->
+  k_err (n_st (y_sink s)) = Some e0.
+Proof. exact single_error. Qed.
+
+(* The same for every way of cutting the operators into stage actors (any chain of covered kinds). *)
+Theorem C45_any_materialisation :
+  forall (c : cfg) (input : list val) (ks : list kind) (s : system),
+  Forall kok ks -> reach c input ks s ->
+  SinkInv (y_sink s) /\ approx (n_cin (y_sink s)) (sem (concat (map kind_ops ks)) input).
+Proof. exact materialisation_sound. Qed.
+
+(* Stage fusion does not change the operators a plan stands for. *)
+Theorem C45_plan_keeps_operators : forall fuse p, concat (map kind_ops (plan fuse p)) = p.
+Proof. exact plan_ops. Qed.
+
+(* [sem] is the familiar list computation. *)
+Theorem C45_sem_map : forall a b zs, sem_op (OMap a b) (vz zs) = (vz (map (fun z => a * z + b) zs), None).
+Proof. exact sem_map. Qed.
+Theorem C45_sem_filter : forall m r zs,
+  sem_op (OFilter m r) (vz zs) = (vz (filter (fun z => negb (z mod m =? r)) zs), None).
+Proof. exact sem_filter. Qed.
+Theorem C45_sem_flatmap : forall k zs, sem_op (OFlatMap k) (vz zs) = (flat_map (flat_of k) zs, None).
+Proof. exact sem_flatmap. Qed.
+Theorem C45_sem_scan : forall z0 zs, sem_op (OScan z0) (vz zs) = (vz (sums_from z0 zs), None).
+Proof. exact sem_scan. Qed.
+Theorem C45_sem_buffer : forall n xs, sem_op (OBuffer n) xs = (xs, None).
+Proof. exact sem_buffer. Qed.
+Theorem C45_sem_batch_then_flatten : forall n zs, (1 <= n)%nat -> sem [OBatch n; OFlatten] (vz zs) = (vz zs, []).
+Proof. exact sem_batch_flatten. Qed.
+Theorem C45_sem_batch_chunks : forall n, (1 <= n)%nat -> forall zs w, (length w < n)%nat ->
+  exists B, chunks_from n w (vz zs) = (map VL B, None) /\ concat B = rev w ++ zs /\
+            Forall (fun b => (length b <= n)%nat /\ b <> []) B.
+Proof. exact chunks_concat. Qed.
+
+(* The batch actor as it was before the repair (flush is a no-op without downstream demand) violates
+   its local specification: it completes downstream having delivered [1] of the consumed [1;2].
+   The witness script is replayed on the real batchFlowActor by the check. *)
+Theorem C45_batch_before_repair_refuted :
+  let n := run_node (KBatch0 1 default_cfg) batch0_witness in
+  n_cin n = [DElem (VZ 1); DElem (VZ 2); DComplete] /\
+  n_cout n = [DElem (VL [1]); DComplete] /\
+  approx (n_cin n) ([VZ 1; VZ 2], []) /\
+  ~ approx (n_cout n) (ksem (KBatch0 1 default_cfg) ([VZ 1; VZ 2], [])).
+Proof. exact batch0_refuted. Qed.
+
+Print Assumptions C45_sink_receives_list_semantics.
+Print Assumptions C45_first_stage_error_ends_the_stream.
+Print Assumptions C45_any_materialisation.
+Print Assumptions C45_plan_keeps_operators.
 Print Assumptions C45_sem_map.
+Print Assumptions C45_sem_filter.
+Print Assumptions C45_sem_flatmap.
+Print Assumptions C45_sem_scan.
+Print Assumptions C45_sem_buffer.
+Print Assumptions C45_sem_batch_then_flatten.
+Print Assumptions C45_sem_batch_chunks.
+Print Assumptions C45_batch_before_repair_refuted.
